@@ -29,7 +29,8 @@ pub fn payload_chunks(c: &mut Case<'_>, max_chunks: usize, max_chunk: usize) -> 
             0 => c.t.below(17),
             1 => 1 + c.t.len(max_chunk.min(700)),
             2 => 1 + c.t.len(max_chunk),
-            _ => 8192,
+            // the sizes clients really use, and the upper end of the stated range (64 KiB exactly, one below)
+            _ => *c.t.pick(&[8192usize, 65536, 65535, 16384, 32768, 4096]),
         }
         .min(max_chunk.max(1));
         let len = if len == 0 && i + 1 == n && c.t.bool() { 1 } else { len };
@@ -202,8 +203,13 @@ fn flip_hex(c: &mut Case<'_>, s: &str) -> String {
 }
 
 fn faults(c: &mut Case<'_>) -> CaseResult {
-    let max_chunk = if c.tier == crate::engine::Tier::Quick { 4096 } else { 65536 };
-    let datas = payload_chunks(c, if c.tier == crate::engine::Tier::Quick { 8 } else { 40 }, max_chunk);
+    // (quick tier: three quarters of the uploads stay small, one quarter uses the whole stated range of chunk sizes)
+    let big = c.t.chance(64);
+    let max_chunk = if c.tier == crate::engine::Tier::Quick && !big { 4096 } else { 65536 };
+    let datas = payload_chunks(c, if c.tier == crate::engine::Tier::Quick { if big { 4 } else { 8 } } else { 40 }, max_chunk);
+    if datas.iter().any(|d| d.len() == 65536) {
+        c.label("chunk-of-64KiB");
+    }
     let upload_part = c.t.chance(64);
     let u = build_upload(c, datas, upload_part);
     let n = u.chunks.len(); // incl. final
@@ -211,7 +217,7 @@ fn faults(c: &mut Case<'_>) -> CaseResult {
     let declared: usize = u.datas.iter().map(Vec::len).sum();
     let kinds = [
         "none", "none", "data-bit", "size-field", "signature", "swap", "duplicate", "delete", "resign-key", "resign-date", "resign-prev", "splice", "truncate", "garbage-after-final", "extra-chunk-after-final", "wrong-decoded-length",
-        "final-chunk-bad-signature", "signature-length", "no-content-length", "no-content-length-faulty",
+        "final-chunk-bad-signature", "signature-length", "no-content-length", "no-content-length-faulty", "signature-extension-removed",
     ];
     let mut fault = *c.t.pick(&kinds);
     let mut chunks = u.chunks.clone();
@@ -270,6 +276,19 @@ fn faults(c: &mut Case<'_>) -> CaseResult {
             let k = if fault == "signature" { c.t.below(n_data.max(1)).min(n - 1) } else { n - 1 };
             chunks[k].signature = flip_hex(c, &chunks[k].signature);
             body = sigv4::encode_chunks(&chunks);
+            expect = Expect::ErrorAfter { max_chunks: k };
+        }
+        "signature-extension-removed" => {
+            // from chunk k on the chunk headers carry no `;chunk-signature=` extension at all (the bare chunk framing of
+            // unsigned streaming uploads) and the data is somebody else's: none of it was ever signed
+            let k = c.t.below(n);
+            body = sigv4::encode_chunks(&chunks[..k]);
+            for ch in &chunks[k..] {
+                let data: Vec<u8> = ch.data.iter().map(|b| b ^ 0x5a).collect();
+                body.extend_from_slice(format!("{:x}\r\n", data.len()).as_bytes());
+                body.extend_from_slice(&data);
+                body.extend_from_slice(b"\r\n");
+            }
             expect = Expect::ErrorAfter { max_chunks: k };
         }
         "signature-length" => {
